@@ -280,8 +280,13 @@ def st_spec(draw):
         if draw(st.integers(0, 3)) == 0:
             feats = sorted(draw(st.lists(st.integers(0, NFEAT - 1), min_size=1,
                                          max_size=4, unique=True)))
+        disguise = None
+        if typ == "file" and draw(st.integers(0, 5)) == 0:
+            # a local path behind a definition whose "type" claims something else
+            # (hand-written / hostile definitions): remote + hdf5, internal + hdf5
+            disguise = draw(st.sampled_from(["remote", "internal"]))
         files[a]["edges"].append({
-            "type": typ, "locs": locs, "feats": feats,
+            "type": typ, "locs": locs, "feats": feats, "disguise": disguise,
             "map": (draw(st.lists(st.integers(0, n - 1), min_size=n, max_size=n))
                     if mapped else None)})
     for f in files:
@@ -408,6 +413,10 @@ class Model:
                         self.local_bound[t] += 2
                     v = self._verdict(r, RID[self.files[t]["rid"]], mapped, True,
                                       mode == "local")
+                    if e.get("disguise") and v == "yes":
+                        # local open of a mistyped definition: following it is
+                        # neither required nor forbidden by the property
+                        v = "maybe"
                     if v == "no":
                         rejected = True
                         continue
@@ -579,7 +588,28 @@ def _write(d, spec, srv):
                     verify=False)
         if f.get("legacy"):
             _strip_mapping_key(paths[i])
+        for k, e in enumerate(f["edges"]):
+            if e.get("disguise"):
+                _disguise(paths[i], f"e{i}_{k}", e["disguise"])
     return paths
+
+
+def _disguise(path, name, as_type):
+    """rewrite the file-basin definition `name`: same local paths, another type"""
+    with h5py.File(path, "a") as h5:
+        grp = h5["basins"]
+        for bk in sorted(grp.keys()):
+            lines = [ln.decode("utf-8") if isinstance(ln, bytes) else str(ln)
+                     for ln in grp[bk][:]]
+            bd = json.loads(" ".join(lines))
+            if bd.get("name") != name:
+                continue
+            bd["type"] = as_type
+            if as_type == "remote":
+                bd["urls"] = bd.pop("paths")
+            text = json.dumps(bd, indent=2).split("\n")
+            del grp[bk]
+            grp.create_dataset(bk, data=np.array([t.encode("utf-8") for t in text]))
 
 
 def _strip_mapping_key(path):
@@ -616,6 +646,8 @@ def _count_classes(spec, rec):
         r = RID[f["rid"]]
         for e in f["edges"]:
             seen.add(f"type:{e['type']}")
+            if e.get("disguise"):
+                seen.add(f"def:local-path-typed-{e['disguise']}")
             mapped = e["map"] is not None
             if len([lo for lo in e["locs"] if lo["to"] >= 0]) > 1:
                 seen.add("loc:second-candidate")
